@@ -106,14 +106,20 @@ def validate_unique_model():
 
 
 class FakeNN:
+    calls = []  # (n_neighbors, fitted data, queried data) of every instance, for the argument obligations
+
     def __init__(self, n_neighbors=5):
         self.k = n_neighbors
+        self.rec = {"n_neighbors": n_neighbors}
+        FakeNN.calls.append(self.rec)
 
     def fit(self, D):
         self.n = len(D)
+        self.rec["fit"] = D
         return self
 
     def kneighbors_graph(self, D):
+        self.rec["query"] = D
         n, k = self.n, min(self.k, self.n)
         A = np.zeros((n, n))
         for i in range(n):
@@ -127,11 +133,15 @@ def body_membership(ctx, n1, n2, d, k):
     s1 = obj_array([[ctx.real(f"a{i}_{j}") for j in range(d)] for i in range(n1)])
     s2 = obj_array([[ctx.real(f"b{i}_{j}") for j in range(d)] for i in range(n2)])
     shim = stubs.NpShim(unique=model_unique)
+    del FakeNN.calls[:]
     with rebind(M, np=shim, NearestNeighbors=FakeNN):
         p = M.NNSpacePartitioner(k)
         p.build(s1, s2)
     D = p.D
     m = len(D)
+    # the neighbour search is asked for exactly the k nearest neighbours (each point included) of the union
+    ctx.prove(len(FakeNN.calls) == 1 and FakeNN.calls[0]["n_neighbors"] == k and FakeNN.calls[0].get("fit") is D
+              and FakeNN.calls[0].get("query") is D, "neighbour-search-gets-k-and-the-deduplicated-union")
     # D is the de-duplicated union: every input row occurs, rows are pairwise distinct
     for r in list(s1) + list(s2):
         ctx.prove(any(_row_eq(r, D[i]) for i in range(m)), "union-contains-every-point")
@@ -284,7 +294,8 @@ def jobs(tier):
                 if d == 2 and n1 + n2 > (4 if q else 5):
                     continue
                 exp = ("all-distinct", "with-duplicates") + (("unequal-sizes",) if n1 != n2 else ())
-                out.append(Job(f"membership-{n1}x{n2}-d{d}", "checks.c10:body_membership", {"n1": n1, "n2": n2, "d": d, "k": 2},
+                out.append(Job(f"membership-{n1}x{n2}-d{d}", "checks.c10:body_membership",
+                               {"n1": n1, "n2": n2, "d": d, "k": 2 if (n1 + n2) % 2 else n1 + n2},
                                expect=exp, opts={"validate": 1}))
     for m in (1, 2, 3, 4) if q else (1, 2, 3, 4, 5):
         for v1 in product((0, 1), repeat=m):
